@@ -90,6 +90,28 @@ mut("c10_bit_mod7", "src/filter/atomic_bitvec.rs", "        let mask = 1u8 << (b
 mut("c10_range_lt", "src/filter/range.rs", "        self.initialized && &self.min <= key && key <= &self.max", "        self.initialized && &self.min < key && key <= &self.max", ["C10", "C01"])
 mut("c10_bloom_offset", "src/blob/index/core.rs", "        let bloom_offset = size_of::<u64>() + range_buf.len();", "        let bloom_offset = range_buf.len();", ["C10"], "off-loaded probing reads 8 bytes early")
 mut("c10_default_flip", "src/filter/mod.rs", "        Self::NeedAdditionalCheck\n    }\n}\n\nimpl Add", "        Self::NotContains\n    }\n}\n\nimpl Add", ["C10"])
+# ---- C11
+mut("c11_f4_revert", "src/blob/index/core.rs", """                    if let State::InMemory(headers) = &self.inner {
+                        *headers.write().expect("rwlock") = data;
+                    }
+                    return Err(e);""", "                    drop(data);\n                    return Err(e);", ["C11"], "reverts fix F4 (failed dump drops headers)")
+mut("c11_close_loses_blob", "src/storage/core.rs", """                    safe.active_blob = Some(Box::new(ASRwLock::new(ablob)));
+                    return Err(e.into());""", "                    drop(ablob);\n                    return Err(e.into());", ["C11"], "reverts fix: failed sync in close_active_blob drops the blob")
+mut("c11_append_open", "src/io/unix/sync.rs", "File::from_file(path, |f| f.create(false).write(true).read(true)).await", "File::from_file(path, |f| f.create(false).append(true).read(true)).await", ["C11"], "reverts fix: O_APPEND open")
+mut("c11_swallow_write_error", "src/io/unix/sync.rs", "                Self::write_data(&file_inner.std_file, offset, res)?;\n                Ok(data)\n            })\n        } else {", "                let _ = Self::write_data(&file_inner.std_file, offset, res);\n                Ok(data)\n            })\n        } else {", ["C11"], "write error swallowed on the in-place path: failed write acknowledged")
+mut("c11_index_push_before_write", "src/blob/core.rs", """        let write_result = partially_serialized.write_to_file(&blob.file).await?;
+        header.set_offset_checksum(write_result.blob_offset(), write_result.header_checksum());
+        blob.index.push(key, header)?;""", """        let write_result = partially_serialized.write_to_file(&blob.file).await;
+        if write_result.is_err() { let mut h2 = header.clone(); h2.set_offset_checksum(blob.file.size(), 0); let _ = blob.index.push(key, h2); }
+        let write_result = write_result?;
+        header.set_offset_checksum(write_result.blob_offset(), write_result.header_checksum());
+        blob.index.push(key, header)?;""", ["C11"], "failed write still indexed (served later as if it had succeeded)")
+mut("c11_dump_error_propagates", "src/storage/core.rs", """                if let Err(e) = blob.dump().await {
+                    error!("Error dumping blob ({}): {}", blob.name(), e);
+                } else {""", """                if let Err(e) = blob.dump().await {
+                    error!("Error dumping blob ({}): {}", blob.name(), e);
+                    return;
+                } else {""", ["C11"], "EQUIVALENT-ish: dump loop stops at the first failing blob (later dumps retried next time)")
 # ---- C12
 mut("c12_no_header_sync", "src/blob/core.rs", "        self.file.write_append_all(buf.freeze()).await?;\n        self.file.fsyncdata().await?;", "        self.file.write_append_all(buf.freeze()).await?;", ["C12"])
 mut("c12_no_dump_sync", "src/blob/core.rs", """            self.fsyncdata()
